@@ -430,48 +430,43 @@ def r4(ctx):
     f = ctx.fn(repo.func("gunicorn.util.write_error"))
     MESG = f.params[3]
     REASON = f.params[2]
-    # the http template: BinOp(Mod) whose left text contains Content-Length
-    tmpl = None
-    for n in walk_own(f.node):
-        if isinstance(n, ast.BinOp) and isinstance(n.op, ast.Mod):
-            txt = "".join(x.value for x in ast.walk(n.left) if isinstance(x, ast.Constant) and isinstance(x.value, str))
-            if "content-length" in txt.lower():
-                tmpl = (n, txt)
-    ctx.need(tmpl is not None, "C05.R4: HTTP template of write_error not recognised")
-    n, txt = tmpl
-    head, sep, body = txt.partition("\r\n\r\n")
-    if not sep:
-        # textwrap.dedent form: lines end with \r + newline
-        head, sep, body = txt.partition("\r\n    \r\n")
-        if not sep:
-            parts = re.split(r"\r\n\s*\r\n", txt, 1)
-            head, sep, body = (parts[0], "\r\n\r\n", parts[1]) if len(parts) == 2 else (txt, "", "")
-    ctx.check("C05.R4", bool(sep), key(f, "blank-line"), site(f), "the error reply template has no blank line between head and body", "head CRLF CRLF body")
-    args = n.right.elts if isinstance(n.right, ast.Tuple) else [n.right]
-    ph = re.findall(r"%[sdr]", txt)
-    ctx.need(len(ph) == len(args), "C05.R4: placeholder/argument count mismatch in write_error template")
-    nh = len(re.findall(r"%[sdr]", head))
-    cl_idx = len(re.findall(r"%[sdr]", head[:head.lower().index("content-length")]))
-    cl_arg = args[cl_idx]
-    body_args = args[nh:]
-    okk = isinstance(cl_arg, ast.Call) and isinstance(cl_arg.func, ast.Name) and cl_arg.func.id == "len" and len(body_args) == 1 and \
-        isinstance(body_args[0], ast.Name) and isinstance(cl_arg.args[0], ast.Name) and cl_arg.args[0].id == body_args[0].id and body.strip() in ("%s",)
-    ctx.check("C05.R4", okk, key(f, "content-length-of-body"), site(f, cl_arg), "Content-Length is not len() of the very value placed after the blank line (`%s` vs body `%s`)" % (
-        norm(cl_arg), ",".join(norm(b) for b in body_args)), "Content-Length == len(body)")
-    ctx.check("C05.R4", re.search(r"connection:\s*close", head.lower()) is not None, key(f, "connection-close"), site(f), "the error reply does not say `Connection: close`", "Connection: close")
-    ctx.check("C05.R4", head.lstrip().startswith("HTTP/1.1 %s %s") or head.lstrip().startswith("HTTP/1.0 %s %s"), key(f, "status-line"), site(f), "the error reply has no HTTP status line", "status line")
-    # body text encoded as latin-1 means len(str) == len(bytes)
-    enc = [c for c in method_calls(f, "encode")]
-    ctx.check("C05.R4", bool(enc) and all(c.args and str(const(c.args[0], "")).lower().replace("-", "") in ("latin1", "iso88591") for c in enc), key(f, "latin1"), site(f),
-              "the reply is not encoded as latin-1: len(text) would differ from the number of bytes sent (Content-Length wrong for non-ASCII messages)", "latin-1: len(str) == len(bytes)")
-    # mesg only through html.escape
-    uses = [x for x in walk_own(f.node) if isinstance(x, ast.Name) and x.id == MESG and isinstance(x.ctx, ast.Load)]
-    ok2 = bool(uses)
-    for u in uses:
-        par = f.module.parents.get(u)
-        if not (isinstance(par, ast.Call) and repo.call_target(f.module, f, par) == "html.escape"):
-            ok2 = False
-    ctx.check("C05.R4", ok2, key(f, "escaped-message"), site(f), "the message (which quotes client bytes) reaches the HTML page without html.escape", "mesg -> html.escape")
+    # evaluated: the bytes write_error hands to the socket for concrete (status, reason, message) -- however the page
+    # and the head are put together (%-templates, str.format, f-strings, module-level constants)
+    g = f.cfg
+    SOCK, STATUS = f.params[0], f.params[1]
+    sends = [c for c in walk_own(f.node) if isinstance(c, ast.Call) and ((repo.call_target(f.module, f, c) or "") in ("gunicorn.util.write_nonblock", "gunicorn.util.write")
+                                                                             or (isinstance(c.func, ast.Attribute) and c.func.attr in ("sendall", "send")))]
+    ctx.need(sends, "C05.R4: write_error never sends")
+    call = sends[0]
+    payload_arg = call.args[0] if isinstance(call.func, ast.Attribute) and call.func.attr in ("sendall", "send") else call.args[1]
+    for status, reason, mesg in ((400, "Bad Request", "plain"), (431, "Request Header Fields Too Large", "Error parsing headers: '<b>&\"x'"), (400, "Bad Request", "Invalid Method 'G\xc9T'"),
+                                 (500, "Internal Server Error", "")):
+        ex = Explorer(f)
+        outs = ex.run(g.entry, {SOCK: Inst("socket.socket"), STATUS: status, REASON: reason, MESG: mesg},
+                      probes={n.id: ("bytes", lambda e_, env: e_.ev(payload_arg, env)) for n in nodes_with(f, call)})
+        vals = set(e[1] for o in outs for e in o.events if isinstance(e, tuple) and e[0] == "bytes")
+        tag = "%s|%s" % (status, mesg[:12])
+        ok_eval = len(vals) == 1 and isinstance(list(vals)[0], bytes)
+        ctx.check("C05.R4", ok_eval, key(f, "reply-evaluates|" + tag), site(f, text="write_error(%s, %r, %r)" % (status, reason, mesg)),
+                  "the bytes of the error reply are not determined by (status, reason, message): %s" % sorted(map(str, vals))[:2], "reply determined")
+        if not ok_eval:
+            continue
+        raw = list(vals)[0]
+        head, sep, body = raw.partition(b"\r\n\r\n")
+        ctx.check("C05.R4", bool(sep), key(f, "blank-line|" + tag), site(f), "the error reply has no blank line between head and body", "head CRLF CRLF body")
+        lines = head.split(b"\r\n")
+        ctx.check("C05.R4", lines[0] == ("HTTP/1.1 %d %s" % (status, reason)).encode("latin-1"), key(f, "status-line|" + tag), site(f),
+                  "the error reply starts with %r, not with the status line for (%s, %s)" % (lines[0][:60], status, reason), "status line")
+        hdrs = dict((l.split(b":", 1)[0].strip().lower(), l.split(b":", 1)[1].strip()) for l in lines[1:] if b":" in l)
+        ctx.check("C05.R4", hdrs.get(b"connection", b"").lower() == b"close", key(f, "connection-close|" + tag), site(f), "the error reply does not say `Connection: close`", "Connection: close")
+        cl = hdrs.get(b"content-length")
+        ctx.check("C05.R4", cl is not None and cl.isdigit() and int(cl) == len(body), key(f, "content-length-of-body|" + tag), site(f, text="write_error(%s, %r, %r)" % (status, reason, mesg)),
+                  "Content-Length says %s but %d body bytes follow the blank line (message %r): the reply is mis-framed -- e.g. text encoded as UTF-8 while the length counts characters" % (
+                      cl, len(body), mesg), "Content-Length == number of body bytes")
+        import html as _html
+        esc = _html.escape(mesg).encode("latin-1")
+        ctx.check("C05.R4", (esc in body) and (not mesg or mesg == _html.escape(mesg) or mesg.encode("latin-1") not in body), key(f, "escaped-message|" + tag), site(f),
+                  "the message (which quotes client bytes) reaches the HTML page without html.escape / not as latin-1 bytes", "mesg -> html.escape, latin-1")
     # reason / status are literals at the only caller
     callers = [(ff, c) for ff in repo.funcs() for c, q in repo.calls_in(ff) if q == "gunicorn.util.write_error"]
     for ff, c in callers:
